@@ -704,6 +704,58 @@ static void run_dl_lit_case(const DCase &c, const std::string &txt)
         vf::Arena::Pause p;
         outcome = variable(L) == FALSE_var ? "constant" : "literal";
       }
+      // the other order (seed C12-5): on a fresh theory the literal is given the truth value the point demands FIRST and
+      // the point is pinned afterwards - the constraint (or its negation) is then already part of the distances when the
+      // pinning constraints are created and asserted, and it must not exclude the point
+      {
+        ++g_replays;
+        sat_core sat2;
+        TH th2(sat2, 2);
+        var x2, y2;
+        if (c.xfirst)
+        {
+          x2 = th2.new_var();
+          y2 = th2.new_var();
+        }
+        else
+        {
+          y2 = th2.new_var();
+          x2 = th2.new_var();
+        }
+        bool ok2 = setup_state(sat2, th2, c.state, x2, y2);
+        lit L2;
+        bool have = false;
+        if (ok2)
+          try
+          {
+            L2 = drequest(th2, c, x2, y2);
+            have = true;
+          }
+          catch (const std::invalid_argument &)
+          {
+          }
+        if (ok2 && have)
+        {
+          bool ok3 = sat2.new_clause({holds ? L2 : !L2}) && sat2.propagate();
+          for (auto &[v, g] : std::vector<std::pair<var, Q>>{{x2, gx}, {y2, gy}})
+          {
+            if (!ok3)
+              break;
+            lit a = T::dist(th2, 0, v, g);
+            ok3 = ok3 && sat2.new_clause({a}) && sat2.propagate();
+            if (!ok3)
+              break;
+            lit b = T::dist(th2, v, 0, -g);
+            ok3 = ok3 && sat2.new_clause({b}) && sat2.propagate();
+          }
+          if (!ok3)
+          {
+            vf::Arena::Pause p;
+            vf::finding(std::string("C12:") + thn + ":" + RELN[c.rel] + ":" + shape + ":point-refused-after-literal-made-" + (holds ? "true-where-relation-holds" : "false-where-relation-fails"), txt + " @ x=" + ref::str(gx) + " y=" + ref::str(gy), "the literal for " + c.l->name + " " + RELN[c.rel] + " " + c.r->name + " was asserted " + (holds ? "true" : "false") + " at root first; the point, at which the relation " + (holds ? "holds" : "fails") + ", could then not be pinned");
+            return;
+          }
+        }
+      }
     }
   vf::distinct("outcomes", vf::fnv(outcome + shape + thn + RELN[c.rel] + std::to_string(c.state)));
 }
